@@ -12,6 +12,7 @@ package main
 
 import (
 	"encoding/hex"
+	"encoding/json"
 	"fmt"
 	"sort"
 	"strings"
@@ -25,36 +26,130 @@ import (
 	"verif/lib/ev"
 )
 
-// c42Hashes returns a deterministic hash alphabet: `plain` hashes without a score tie among the
-// universe and `tied` hashes with at least one pair of equally scoring sharders.
-func c42Hashes(universe, plain, tied int) []string {
+// c42Hashes returns a deterministic hash alphabet found by searching the space
+// sha3("verif-structs-block-i"), i = 0,1,2,..., exhaustively in order with the real XOR scorer:
+// `plain` hashes under which no two sharders of the universe score equal, and for EVERY pair of
+// sharders the first hash under which exactly these two tie (for a pool that holds both, the tie
+// is at the replicator boundary for the count k that cuts between them; every k is enumerated),
+// and the first hash with a three-way tie.
+func c42Hashes(keys []int, plain int) (out []string, desc []string) {
+	universe := len(keys)
 	sc := encryption.NewXORHashScorer()
 	ids := make([][]byte, universe)
 	for k := range ids {
-		ids[k], _ = hex.DecodeString(nodeID(k))
+		ids[k], _ = hex.DecodeString(nodeID(keys[k]))
 	}
-	var out []string
-	np, nt := 0, 0
-	for i := 0; np < plain || nt < tied; i++ {
+	type pair struct{ a, b int }
+	needPair := map[pair]bool{}
+	for a := 0; a < universe; a++ {
+		for b := a + 1; b < universe; b++ {
+			needPair[pair{a, b}] = true
+		}
+	}
+	needTriple := true
+	np := 0
+	for i := 0; (np < plain || len(needPair) > 0 || needTriple) && i < 2000000; i++ {
 		h := encryption.RawHash(fmt.Sprintf("verif-structs-block-%d", i))
-		seen := map[int32]int{}
-		maxMult := 0
-		for _, id := range ids {
+		byScore := map[int32][]int{}
+		for k, id := range ids {
 			s := sc.Score(id, h)
-			seen[s]++
-			if seen[s] > maxMult {
-				maxMult = seen[s]
+			byScore[s] = append(byScore[s], k)
+		}
+		var tied [][]int
+		for _, g := range byScore {
+			if len(g) > 1 {
+				tied = append(tied, g)
 			}
 		}
-		if maxMult >= 2 && nt < tied {
-			nt++
-			out = append(out, hex.EncodeToString(h))
-		} else if maxMult == 1 && np < plain {
+		switch {
+		case len(tied) == 0 && np < plain:
 			np++
 			out = append(out, hex.EncodeToString(h))
+			desc = append(desc, "no tie")
+		case len(tied) == 1 && len(tied[0]) == 2 && needPair[pair{tied[0][0], tied[0][1]}]:
+			delete(needPair, pair{tied[0][0], tied[0][1]})
+			out = append(out, hex.EncodeToString(h))
+			desc = append(desc, fmt.Sprintf("keys %d and %d tie", keys[tied[0][0]], keys[tied[0][1]]))
+		case len(tied) == 1 && len(tied[0]) >= 3 && needTriple:
+			needTriple = false
+			out = append(out, hex.EncodeToString(h))
+			var ks []int
+			for _, x := range tied[0] {
+				ks = append(ks, keys[x])
+			}
+			desc = append(desc, fmt.Sprintf("keys %v tie", ks))
+		}
+	}
+	if len(needPair) > 0 {
+		ev.Fatal("hash search did not find a tie for every pair of sharders: %v", needPair)
+	}
+	return out, desc
+}
+
+// c42Keys returns the first u harness keys whose ids have an even number of one bits. (The XOR score
+// of two ids against one hash can only be equal when the ids have the same bit-count parity, so
+// with same-parity ids EVERY pair of sharders can tie.)
+func c42Keys(u int) []int {
+	var out []int
+	for k := 0; len(out) < u; k++ {
+		b, _ := hex.DecodeString(nodeID(k))
+		ones := 0
+		for _, x := range b {
+			for ; x != 0; x &= x - 1 {
+				ones++
+			}
+		}
+		if ones%2 == 0 {
+			out = append(out, k)
 		}
 	}
 	return out
+}
+
+// c42BuildPool builds a sharder pool holding the keys of `order` through one construction history.
+// variant: 0 plain adds in the given order; 1 Clone of that; 2+j: key order[j] added again at the
+// end (a fresh node object replaces the stored one); 2+n+j: key order[j] added twice in a row;
+// 2+2n: every key added again in reverse order; 3+2n: JSON round trip of the pool.
+func c42BuildPool(order []int, variant int, withBytes bool) (*node.Pool, string) {
+	n := len(order)
+	pool := node.NewPool(node.NodeTypeSharder)
+	add := func(k int) {
+		if err := pool.AddNode(mkNode(node.NodeTypeSharder, k, withBytes)); err != nil {
+			ev.Fatal("AddNode: %v", err)
+		}
+	}
+	for j, k := range order {
+		add(k)
+		if variant == 2+n+j {
+			add(k)
+		}
+	}
+	switch {
+	case variant == 0:
+		return pool, "added in order"
+	case variant == 1:
+		return pool.Clone(), "Clone()"
+	case variant >= 2 && variant < 2+n:
+		add(order[variant-2])
+		return pool, fmt.Sprintf("key %d added again at the end", order[variant-2])
+	case variant >= 2+n && variant < 2+2*n:
+		return pool, fmt.Sprintf("key %d added twice in a row", order[variant-2-n])
+	case variant == 2+2*n:
+		for j := n - 1; j >= 0; j-- {
+			add(order[j])
+		}
+		return pool, "every key added again in reverse order"
+	default:
+		data, err := json.Marshal(pool)
+		if err != nil {
+			ev.Fatal("pool JSON: %v", err)
+		}
+		p2 := node.NewPool(node.NodeTypeSharder)
+		if err := json.Unmarshal(data, p2); err != nil {
+			ev.Fatal("pool JSON decode: %v", err)
+		}
+		return p2, "JSON round trip"
+	}
 }
 
 func c42() {
@@ -62,14 +157,17 @@ func c42() {
 	run := ev.Start("C42")
 	maxN := run.Pick(4, 5)
 	universe := maxN + 1
-	hashes := c42Hashes(universe, run.Pick(3, 5), run.Pick(5, 11))
+	keys := c42Keys(universe)
+	run.Bounds["harness_keys"] = fmt.Sprintf("%v (ids of equal bit-count parity, so that every pair can score equal)", keys)
+	hashes, hashDesc := c42Hashes(keys, run.Pick(3, 5))
+	run.Bounds["block_hash_alphabet"] = hashDesc
 	run.Bounds["max_sharders"] = maxN
 	run.Bounds["key_universe"] = universe
 	run.Bounds["block_hashes"] = len(hashes)
 	run.Bounds["replicators"] = "0..n+1 and -1"
 	run.Bounds["node_construction"] = []string{"with scoring bytes (SetID)", "without scoring bytes (Provider()+fields)"}
-	run.Bounds["pool_variants"] = []string{"plain", "Clone()"}
-	run.Rule = "every sharder set x every insertion order x {plain, clone} x 2 node constructions x every block hash of the alphabet x every replicator count; distinct = distinct (set, hash, replicators, construction, replicator id set)"
+	run.Bounds["pool_construction_histories"] = "every insertion order x {plain, Clone(), each key added again at the end, each key added twice in a row, every key added again in reverse, JSON round trip (nodes without scoring bytes)}"
+	run.Rule = "every sharder set x every pool construction history (insertion orders, re-adds that replace the stored node object, clone, JSON round trip) x 2 node constructions x every block hash of the alphabet x every replicator count; distinct = distinct (set, hash, replicators, construction, replicator id set)"
 
 	// one real chain per replicator count (the count is read from the configuration when the chain is built)
 	chains := map[int]*chain.Chain{}
@@ -88,11 +186,16 @@ func c42() {
 		withBytes bool
 	}
 	canon := map[caseKey]string{}
+	boundaryTies := 0
+	scorer := node.NewHashPoolScorer(encryption.NewXORHashScorer())
 	noBytesCases, noBytesAll := 0, 0 // observation: nodes without scoring bytes, 1 <= replicators < n
 	canonOrder := map[caseKey]string{}
 
 	for n := 1; n <= maxN; n++ {
 		subsets(universe, n, func(sub []int) {
+			for i := range sub {
+				sub[i] = keys[sub[i]]
+			}
 			ids := make([]string, n)
 			for i, k := range sub {
 				ids[i] = nodeID(k)
@@ -100,15 +203,15 @@ func c42() {
 			ids = sortedCopy(ids)
 			permutations(sub, func(order []int) {
 				for _, withBytes := range []bool{true, false} {
-					for variant := 0; variant < 2; variant++ {
-						pool := node.NewPool(node.NodeTypeSharder)
-						for _, k := range order {
-							if err := pool.AddNode(mkNode(node.NodeTypeSharder, k, withBytes)); err != nil {
-								ev.Fatal("AddNode: %v", err)
-							}
-						}
-						if variant == 1 {
-							pool = pool.Clone()
+					nVariants := 3 + 2*n
+					if !withBytes {
+						nVariants++ // JSON round trip (decoded nodes never carry scoring bytes)
+					}
+					for variant := 0; variant < nVariants; variant++ {
+						pool, how := c42BuildPool(order, variant, withBytes)
+						if pool.Size() != n {
+							run.Violation("C42:Pool:size-after-construction", fmt.Sprintf("sharders %v inserted %v (%s): pool size %d", sub, order, how, pool.Size()), nil)
+							continue
 						}
 						mb := block.NewMagicBlock()
 						mb.StartingRound = 0
@@ -119,14 +222,19 @@ func c42() {
 							c.SetMagicBlock(mb)
 							for _, h := range hashes {
 								ck := caseKey{fmt.Sprint(sub), h, r, withBytes}
-								desc := fmt.Sprintf("sharders %v inserted %v (variant %d, scoring bytes %v) hash %s.. replicators %d", sub, order, variant, withBytes, h[:8], r)
-								replay := map[string]any{"sharder_keys": sub, "insertion_order": order, "variant": variant, "with_scoring_bytes": withBytes, "hash": h, "replicators": r}
+								desc := fmt.Sprintf("sharders %v inserted %v (%s, scoring bytes %v) hash %s.. replicators %d", sub, order, how, withBytes, h[:8], r)
+								replay := map[string]any{"sharder_keys": sub, "insertion_order": order, "variant": variant, "construction": how, "with_scoring_bytes": withBytes, "hash": h, "replicators": r}
 								got, ok := c42Observe(run, c, pool, ids, h, desc, replay)
 								run.Add(0, 1, 1)
 								if !ok {
 									continue
 								}
 								set := strings.Join(got, ",")
+								if variant == 0 && withBytes && r >= 1 && r < n {
+									if scs := scorer.ScoreHashString(pool, h); len(scs) == n && scs[r-1].Score == scs[r].Score {
+										boundaryTies++ // measured with the real scorer: the tie sits exactly at the replicator boundary
+									}
+								}
 								if !withBytes && r >= 1 && r < n {
 									noBytesCases++
 									if len(got) == n {
@@ -147,6 +255,8 @@ func c42() {
 									canonOrder[ck] = fmt.Sprint(order)
 									run.Outcome(fmt.Sprintf("%v|%s|%d|%v|%s", sub, h[:8], r, withBytes, shortSet(got)))
 									run.Add(1, 0, 0)
+								} else if prev != set && variant != 0 {
+									run.Violation("C42:IsBlockSharder:depends-on-pool-construction-history", desc+fmt.Sprintf(": set %s, but the pool built by plain adds in order %s gave %s", shortSet(got), canonOrder[ck], prev), replay)
 								} else if prev != set {
 									run.Violation("C42:IsBlockSharder:depends-on-insertion-order", desc+fmt.Sprintf(": set %s, but order %s gave %s", shortSet(got), canonOrder[ck], prev), replay)
 								}
@@ -159,6 +269,10 @@ func c42() {
 				}
 			})
 		})
+	}
+	run.Extra["cases_with_score_tie_exactly_at_the_replicator_boundary"] = boundaryTies
+	if boundaryTies == 0 {
+		ev.Fatal("no enumerated case has a score tie at the replicator boundary (vacuous)")
 	}
 	run.Extra["observation_nodes_without_scoring_bytes"] = fmt.Sprintf("%d of %d cases with 1 <= replicators < n made every sharder responsible", noBytesAll, noBytesCases)
 	run.Assumptions = []string{
